@@ -118,6 +118,9 @@ Record tdesc := mkDesc {
   td_oob : Z;                          (* TSK_ERR_<TABLE>_OUT_OF_BOUNDS *)
   td_mdlen_bug : bool;                 (* parse_<table>_table_dict reads metadata_offset with
                                           check_num_rows = false (sites, mutations) *)
+  td_ropt : list bool;                 (* per ragged column: may it be omitted (None) in
+                                          set_columns / append_columns?  A required column
+                                          that is missing is a TypeError before any change *)
   td_fdefault : list (option Z)        (* per fixed column: None = required; Some v = may be
                                           omitted in set_columns / append_columns, the new
                                           rows then get v (TSK_NULL, TSK_UNKNOWN_TIME) *)
@@ -129,28 +132,28 @@ Record tdesc := mkDesc {
    every run (translator/facts_c13.py), so a change there changes the model. *)
 Definition d_individuals := mkDesc [KU32] 3 c13_order_individual (Some (false, 1%nat)) (Some 2%nat)
   c13_addrow_assert_individual c13_tsk_err_individual_out_of_bounds (negb c13_md_offset_length_checked_individual)
-  [None].
+  [true; true; true] [None].
 Definition d_nodes := mkDesc [KF64; KU32; KId; KId] 1 c13_order_node None (Some 0%nat)
   c13_addrow_assert_node c13_tsk_err_node_out_of_bounds (negb c13_md_offset_length_checked_node)
-  [None; None; Some TSK_NULL; Some TSK_NULL].
+  [true] [None; None; Some TSK_NULL; Some TSK_NULL].
 Definition d_edges := mkDesc [KF64; KF64; KId; KId] 1 c13_order_edge None (Some 0%nat)
   c13_addrow_assert_edge c13_tsk_err_edge_out_of_bounds (negb c13_md_offset_length_checked_edge)
-  [None; None; None; None].
+  [true] [None; None; None; None].
 Definition d_migrations := mkDesc [KF64; KF64; KId; KId; KId; KF64] 1 c13_order_migration None (Some 0%nat)
   c13_addrow_assert_migration c13_tsk_err_migration_out_of_bounds (negb c13_md_offset_length_checked_migration)
-  [None; None; None; None; None; None].
+  [true] [None; None; None; None; None; None].
 Definition d_sites := mkDesc [KF64] 2 c13_order_site None (Some 1%nat)
   c13_addrow_assert_site c13_tsk_err_site_out_of_bounds (negb c13_md_offset_length_checked_site)
-  [None].
+  [false; true] [None].
 Definition d_mutations := mkDesc [KId; KId; KF64; KId] 2 c13_order_mutation (Some (true, 3%nat)) (Some 1%nat)
   c13_addrow_assert_mutation c13_tsk_err_mutation_out_of_bounds (negb c13_md_offset_length_checked_mutation)
-  [None; None; Some TSK_UNKNOWN_TIME_BITS; Some TSK_NULL].
+  [false; true] [None; None; Some TSK_UNKNOWN_TIME_BITS; Some TSK_NULL].
 Definition d_populations := mkDesc [] 1 c13_order_population None (Some 0%nat)
   c13_addrow_assert_population c13_tsk_err_population_out_of_bounds (negb c13_md_offset_length_checked_population)
-  [].
+  [false] [].
 Definition d_provenances := mkDesc [] 2 c13_order_provenance None None
   c13_addrow_assert_provenance c13_tsk_err_provenance_out_of_bounds false
-  [].
+  [false; false] [].
 
 (* tsk_*_table_init: one row / one cell allocated with increment 1, then the increments
    are reset to 0; the Python constructor then sets max_rows_increment *)
@@ -453,6 +456,13 @@ Fixpoint fill_fixed (n : nat) (defaults : list (option Z)) (pf : list (option (l
 
 Definition fill_cols (d : tdesc) (pc : pcols) : option cols :=
   let n := match fst pc with Some c :: _ => length c | _ => 0%nat end in
+  let ragged_ok := (fix go (opt : list bool) (inp : list (option (list Z * list Z))) : bool :=
+                      match opt, inp with
+                      | [], [] => true
+                      | o :: os, x :: xs => (o || match x with Some _ => true | None => false end) && go os xs
+                      | _, _ => false
+                      end) (td_ropt d) (snd pc) in
+  if negb ragged_ok then None else
   match fill_fixed n (td_fdefault d) (fst pc) with
   | Some f => Some (f, snd pc)
   | None => None
@@ -785,7 +795,7 @@ Definition py_getitem_idx := py_getitem_idx_gen c13_getitem_schema_guarded.
 (* the pinned (pre-fix) variant of a descriptor whose binding let metadata_offset set
    num_rows (finding F15) *)
 Definition with_mdlen_bug (d : tdesc) (b : bool) : tdesc :=
-  mkDesc (td_kinds d) (td_nr d) (td_order d) (td_selfref d) (td_md d) (td_assert d) (td_oob d) b (td_fdefault d).
+  mkDesc (td_kinds d) (td_nr d) (td_order d) (td_selfref d) (td_md d) (td_assert d) (td_oob d) b (td_ropt d) (td_fdefault d).
 
 Definition py_setitem (d : tdesc) (t : tbl) (i : Z) (r : row) : step :=
   match py_index (nrows t) i with
